@@ -53,7 +53,7 @@ def run(ctx):
     enum = R.enum_cases(rng, thorough)
     kinds["enumerated_schedules"] = len(enum)
     cases += enum
-    nrand = 3000 if thorough else 260
+    nrand = 5000 if thorough else 450
     for i in range(nrand):
         cases.append(R.gen_case(rng, big_ok=(i % 3 != 2)))
     kinds["random"] = nrand
@@ -102,7 +102,8 @@ def run(ctx):
             case = R.shrink(case, kind, exe, model)
         im, mo = R.execute([case], exe, model)
         j = R.judge(case, im[0], mo[0]) or v
-        res.violation(j[0], j[1], {"script": case, "impl_out": im[0][0][-400:], "model_out": mo[0][0][-400:],
+        res.violation(j[0], j[1], {"script": case, "impl_out": [l[:300] for l in im[0][0][-400:]],
+                                   "model_out": [l[:300] for l in mo[0][0][-400:]],
                                    "detail": j[2], "failing_cases_of_this_kind": len([1 for _, w in found if w[0] == kind]),
                                    "replay_cmd": "./check C01 --replay <this file>"})
     res.rule = ("one writer thread and one reader thread (second handle on the same ring files, or the same handle) "
@@ -134,8 +135,10 @@ def replay(ctx, payload):
     case = payload["script"]
     im, mo = R.execute([case], exe, model)
     j = R.judge(case, im[0], mo[0])
-    print("impl :", im[0][0][-60:])
-    print("model:", mo[0][0][-60:])
+    for tag, out in (("impl ", im[0][0]), ("model", mo[0][0])):
+        print("%s: ... %d lines, the last 25:" % (tag, len(out)))
+        for l in out[-25:]:
+            print("   ", l[:140] + (" ...[%d chars]" % len(l) if len(l) > 140 else ""))
     if j:
         print("VIOLATION property=%s replay=%s" % (ID, "<replayed>"))
         print("DETAIL: %s: %s" % (j[0], j[1]))
